@@ -26,7 +26,7 @@ Inductive expr :=
 with mcase := MCase (r : range) (p : mpat) (e : expr)
 with mpat :=
 | MPatCmp (r : range) (opr : range) (op : cmpop) (o : cor)
-| MPatType (r : range) (tr : range) (ty : mtype)
+| MPatType (r : range) (tr : range) (ty : mtype) (name : chars)   (* name: the spelling, e.g. double vs float *)
 | MPatAny (r : range) (ar : range)
 with cor := OrBin (r : range) (l : cor) (rhs : cand) | OrUn (r : range) (a : cand)
 with cand := AndBin (r : range) (l : cand) (rhs : rel) | AndUn (r : range) (a : rel)
@@ -63,7 +63,7 @@ Definition mprime_range (e : mprime) : range :=
   match e with MPAccess r _ _ | MPCall r _ | MPIndex r _ => r end.
 Definition primary_range (e : primary) : range :=
   match e with PrIdent r _ | PrParens r _ | PrList r _ | PrObj r _ | PrLit r _ => r end.
-Definition mpat_range (p : mpat) : range := match p with MPatCmp r _ _ _ | MPatType r _ _ | MPatAny r _ => r end.
+Definition mpat_range (p : mpat) : range := match p with MPatCmp r _ _ _ | MPatType r _ _ _ | MPatAny r _ => r end.
 Definition oplist_range (o : oplist) : range := match o with OLCons r _ | OLEmpty r => r end.
 
 (** SourceLocation is ordered by (line, column); [surrounding] takes the
